@@ -10,6 +10,7 @@ import Pandora.Proofs.C10
 import Pandora.Proofs.C10R2
 import Pandora.Proofs.C10R3
 import Pandora.Proofs.C10R4
+import Pandora.Proofs.C10R6
 
 namespace Pandora.Props.C10
 open Pandora.Model.C10 Pandora.Spec.C10 Pandora.Proofs.C10
@@ -975,6 +976,159 @@ theorem C10_dial_wrapping_dialer_counterexample : ¬ C10_dial_wrapping_dialer_st
   revert this
   decide
 
+/-! ## round 6: between the schedule and the gun — the loop of `instance.Run`
+
+The loop body is C03's: `Gen.InstLoop.iterBody`, regenerated from core/engine/instance.go on every run, executed by C03's
+interpreter `Model.C03Loop.exec` (both imported read-only). The theorems below compose it with the guns of this property. -/
+
+open Pandora.Model.C03Loop (Oracle) in
+/-- "Each fired request produces exactly one sample", at the aggregator, for ONE iteration of the loop body as it stands in
+the source now, under every answer of the environment (`Acquire` ok?, `Wait` ok?, fire or discard?) and for ANY gun
+(`gun` = what `Shoot` reports for the ammo): the iteration hands the aggregator exactly the gun's samples when the request
+is fired — no `discarded` sample accompanies a fired request —, exactly one `discarded` sample when the shot is not sent
+although its time had come, nothing when there was no ammo or no token; and `Shoot` is called once when the request is
+fired and not at all otherwise. Composed with `C10_one_sample_per_request`: a fired request of the http gun (any outcome)
+or of the gRPC gun reaches the aggregator as exactly one sample. -/
+theorem C10_instance_iteration :
+    (∀ (o : Oracle) (gun : List Sample), iterReports Gen.InstLoop.iterBody o gun =
+        if o.acqOk && o.waitOk then (if o.fire then gun else [discardedSample]) else []) ∧
+    (∀ o : Oracle, iterShots Gen.InstLoop.iterBody o = if o.acqOk && o.waitOk && o.fire then 1 else 0) ∧
+    (∀ (o : Oracle) (cfg : AutoTagCfg) (s : HttpShot), s.connectHook = none → o.acqOk = true → o.waitOk = true →
+        o.fire = true → iterReports Gen.InstLoop.iterBody o (shootHttp cfg s).reports = (shootHttp cfg s).reports ∧
+          (iterReports Gen.InstLoop.iterBody o (shootHttp cfg s).reports).length = 1) ∧
+    (∀ (o : Oracle) (tag : String) (g : GrpcOutcome), o.acqOk = true → o.waitOk = true → o.fire = true →
+        (iterReports Gen.InstLoop.iterBody o (shootGrpc tag g).reports).length = 1) ∧
+    (∀ (o : Oracle) (gun : List Sample), o.fire = false →
+        iterShots Gen.InstLoop.iterBody o = 0 ∧ ∀ r ∈ iterReports Gen.InstLoop.iterBody o gun, r = discardedSample) := by
+  refine ⟨iterReports_gen, iterShots_gen, ?_, ?_, ?_⟩
+  · intro o cfg s hc ha hw hf
+    rw [iterReports_gen]
+    simp [ha, hw, hf, C10_one_sample_per_request.1 cfg s hc]
+  · intro o tag g ha hw hf
+    rw [iterReports_gen]
+    simp [ha, hw, hf, shootGrpc]
+  · intro o gun hf
+    rw [iterShots_gen, iterReports_gen]
+    simp only [hf, Bool.and_false, Bool.false_eq_true, if_false, true_and]
+    intro r hr
+    split at hr <;> simp_all
+
+/-- the same claim about an arbitrary loop body -/
+def C10_instance_iteration_statement (body : List Pandora.Model.C03Loop.Instr) : Prop :=
+  ∀ (o : Pandora.Model.C03Loop.Oracle) (gun : List Sample), iterReports body o gun =
+    if o.acqOk && o.waitOk then (if o.fire then gun else [discardedSample]) else []
+
+/-- It is FALSE for the body in which the discard branch became a guard clause that does not return (the `else` flattened
+away): a shot the instance decides to discard is reported as `discarded` AND fired — two samples for one request. -/
+theorem C10_discard_then_fire_counterexample : ¬ C10_instance_iteration_statement
+    [.acquireOrReturn "ammo", .deferRelease "ammo", .waitOrReturn, .ifFire, .orElse, .reportDiscard, .endIf,
+     .metricAdd "Request" 1, .shoot "ammo", .metricAdd "Response" 1, .returnNil] := by
+  intro h
+  have := h ⟨true, true, false⟩ [{ tags := "t", id := 1, proto := 200, net := 0 }]
+  revert this
+  decide
+
+/-- The decision itself (`!i.discardOverflow || !waiter.IsSlowDown(ctx)`, `IsSlowDown` = overdue ≥ 2 s unless the context
+is done): a request whose token was drawn is fired unless `discard_overflow` is on AND the instance is at least two seconds
+behind AND its context is alive. In particular with `discard_overflow` off every such request is fired. -/
+theorem C10_fire_decision (it : Iter) :
+    (it.fire = true ↔ (it.discardOverflow = false ∨ it.ctxDone = true ∨ it.overdueNanos < 2000000000)) ∧
+    (it.discardOverflow = false → it.fire = true) := by
+  have h : it.fire = true ↔ (it.discardOverflow = false ∨ it.ctxDone = true ∨ it.overdueNanos < 2000000000) := by
+    unfold Iter.fire fireDecision isSlowDown maxOverdueNanos
+    cases it.discardOverflow <;> cases it.ctxDone <;> simp
+  exact ⟨h, fun hd => h.mpr (Or.inl hd)⟩
+
+/-- A whole run of one instance through the regenerated loop body: iteration after iteration until `Acquire` fails, any
+guns' samples, any answers of the environment. What reaches the aggregator is, iteration by iteration, what the property
+allows (`iterSpec`); when every `Shoot` reports exactly one sample (`C10_one_sample_per_request`) the aggregator gets exactly
+one sample per iteration that held an ammo and a token. -/
+theorem C10_instance_run (its : List Iter) :
+    runInstance Gen.InstLoop.iterBody its = (ranIters its).flatMap iterSpec ∧
+    ((∀ it ∈ its, it.gun.length = 1) →
+      (runInstance Gen.InstLoop.iterBody its).length = ((ranIters its).filter fun it => it.acqOk && it.waitOk).length) := by
+  refine ⟨runInstance_gen its, fun hg => ?_⟩
+  rw [runInstance_gen]
+  have hsub : ∀ it ∈ ranIters its, it ∈ its := by
+    intro it
+    induction its with
+    | nil => simp [ranIters]
+    | cons x rest ih =>
+      unfold ranIters
+      split
+      · intro h
+        rcases List.mem_cons.mp h with rfl | h
+        · exact List.mem_cons_self ..
+        · exact List.mem_cons_of_mem _ (ih (fun it hit => hg it (List.mem_cons_of_mem _ hit)) h)
+      · intro h
+        simp at h; subst h; exact List.mem_cons_self ..
+  generalize ranIters its = l at hsub
+  induction l with
+  | nil => rfl
+  | cons it rest ih =>
+    have h1 := hg it (hsub it (List.mem_cons_self ..))
+    have ih' := ih (fun x hx => hsub x (List.mem_cons_of_mem _ hx))
+    simp only [List.flatMap_cons, List.length_append, ih', List.filter_cons]
+    unfold iterSpec
+    by_cases hc : (it.acqOk && it.waitOk) = true
+    · simp only [hc, if_true, List.length_cons]
+      by_cases hf : it.fire = true <;> simp [hf, h1, discardedSample] <;> omega
+    · simp [hc]
+
+/-- A whole POOL run through the regenerated loop body: any number of instances, their iterations interleaved in any way
+(the list is in acquisition order; every acquired ammo takes the next id), every iteration with any answers of the
+environment and any outcome of its exchange, the samples reaching the aggregator in ANY order. As long as the id counter
+does not wrap: the samples are the gun's samples — exactly one per FIRED ammo, with pairwise distinct non-zero ids — plus
+exactly one `discarded` sample (id 0) per shot the instance did not send although its time had come; the Spec's judges of
+such a run accept these numbers. -/
+theorem C10_pool_run_with_discards {ι : Type} (cfg : AutoTagCfg) (c : Nat)
+    (its : List (ι × ShotPlan × Pandora.Model.C03Loop.Oracle)) (h : c + its.length < idModulus)
+    (reported : List Sample) (hperm : reported.Perm (runPoolLoop Gen.InstLoop.iterBody cfg c its)) :
+    ∃ guns : List Sample,
+      reported.Perm (guns ++ List.replicate
+        (its.filter fun x => x.2.2.acqOk && x.2.2.waitOk && !x.2.2.fire).length discardedSample) ∧
+      guns.length = (its.filter fun x => x.2.2.acqOk && x.2.2.waitOk && x.2.2.fire).length ∧
+      (guns.map (·.id)).Nodup ∧ (∀ s ∈ guns, s.id ≠ discardedSample.id) ∧
+      judgeDiscards its.length (its.filter fun x => !(x.2.2.acqOk && x.2.2.waitOk && x.2.2.fire)).length
+        (its.filter fun x => x.2.2.acqOk && x.2.2.waitOk && !x.2.2.fire).length = "ok" := by
+  let plans : List (ι × ShotPlan × Fate) := (its.filter (·.2.2.acqOk)).map fun x => (x.1, x.2.1, fateOf x.2.2)
+  have hlen : plans.length ≤ its.length := by
+    simp only [plans, List.length_map]; exact List.length_filter_le _ _
+  have hcount : ∀ f : Fate, countFate f plans = (its.filter fun x => x.2.2.acqOk && (fateOf x.2.2 == f)).length := by
+    intro f
+    simp only [plans, countFate, List.filter_map, List.length_map, List.filter_filter, Function.comp_def]
+    congr 1
+    apply List.filter_congr
+    intro x _
+    simp [Bool.and_comm]
+  have hfd : ∀ o : Pandora.Model.C03Loop.Oracle, (o.acqOk && (fateOf o == .discarded)) = (o.acqOk && o.waitOk && !o.fire) := by
+    intro o; obtain ⟨a, w, f⟩ := o; cases a <;> cases w <;> cases f <;> decide
+  have hff : ∀ o : Pandora.Model.C03Loop.Oracle, (o.acqOk && (fateOf o == .fired)) = (o.acqOk && o.waitOk && o.fire) := by
+    intro o; obtain ⟨a, w, f⟩ := o; cases a <;> cases w <;> cases f <;> decide
+  refine ⟨runPool cfg c (firedOnly plans), ?_, ?_, ?_, ?_, ?_⟩
+  · have h2 : (runPoolLoop Gen.InstLoop.iterBody cfg c its).Perm
+        (runPool cfg c (firedOnly plans) ++ List.replicate (countFate .discarded plans) discardedSample) := by
+      rw [runPoolLoop_gen]; exact runPoolD_perm cfg c plans
+    have h3 := hperm.trans h2
+    rw [hcount .discarded] at h3
+    simpa only [hfd] using h3
+  · rw [(runPool_ids cfg c (firedOnly plans)).2, firedOnly_fired, hcount .fired]
+    simp only [hff]
+  · have hn : (firedOnly plans).length ≤ idModulus := by rw [firedOnly_length]; omega
+    exact (ids_nodup c _ hn).sublist (runPool_ids cfg c (firedOnly plans)).1
+  · intro s hs
+    have := (runPool_ids_pos cfg c (firedOnly plans) (by rw [firedOnly_length]; omega) s hs).1
+    simp only [discardedSample]; omega
+  · unfold judgeDiscards
+    have hle : (its.filter fun x => x.2.2.acqOk && x.2.2.waitOk && !x.2.2.fire).length
+        ≤ (its.filter fun x => !(x.2.2.acqOk && x.2.2.waitOk && x.2.2.fire)).length := by
+      rw [← List.countP_eq_length_filter, ← List.countP_eq_length_filter]
+      apply List.countP_mono_left
+      intro x _ hx
+      obtain ⟨i, p, ⟨a, w, f⟩⟩ := x
+      cases a <;> cases w <;> cases f <;> simp_all
+    exact if_neg (Nat.not_lt.mpr hle)
+
 /-! ## non-vacuity: concrete non-trivial inputs meeting the hypotheses -/
 
 -- the documented example: /my/very/deep/page with uri-elements 2 gives /my/very
@@ -1077,5 +1231,35 @@ example : getErrno (dialFailure .http true false true (.refused 111)) = 111 := b
 example : getErrno (dialFailure .connect true false true (.refused 111)) = 999 := by decide
 example : getErrno (clientErr false (transportDialErr cachingDialWrapping .http true false .timedOut)) = 999 := by decide
 example : (GunKind.http2 ≠ .connect) ∧ (111 ≠ 11) := by decide
+
+-- round 6: the regenerated loop body under the three kinds of answers; a fired request, a discarded shot, no token
+example : iterReports Gen.InstLoop.iterBody ⟨true, true, true⟩ [{ tags := "t", id := 1, proto := 200, net := 0 }]
+    = [{ tags := "t", id := 1, proto := 200, net := 0 }] := by decide
+example : iterReports Gen.InstLoop.iterBody ⟨true, true, false⟩ [{ tags := "t", id := 1, proto := 200, net := 0 }]
+    = [{ tags := "discarded", id := 0, proto := 0, net := 777 }] := by decide
+example : iterReports Gen.InstLoop.iterBody ⟨true, false, true⟩ [{ tags := "t", id := 1, proto := 200, net := 0 }] = [] := by decide
+-- the body of the counterexample: discarded AND fired
+example : iterReports [.acquireOrReturn "ammo", .deferRelease "ammo", .waitOrReturn, .ifFire, .orElse, .reportDiscard, .endIf,
+     .metricAdd "Request" 1, .shoot "ammo", .metricAdd "Response" 1, .returnNil] ⟨true, true, false⟩
+    [{ tags := "t", id := 1, proto := 200, net := 0 }]
+    = [{ tags := "discarded", id := 0, proto := 0, net := 777 }, { tags := "t", id := 1, proto := 200, net := 0 }] := by decide
+-- an instance 2.3 s behind with discard_overflow on discards; with it off, or 1.9 s behind, or cancelled, it fires
+example : ({ discardOverflow := true, overdueNanos := 2300000000 } : Iter).fire = false := by decide
+example : ({ discardOverflow := false, overdueNanos := 2300000000 } : Iter).fire = true := by decide
+example : ({ discardOverflow := true, overdueNanos := 1900000000 } : Iter).fire = true := by decide
+example : ({ discardOverflow := true, ctxDone := true, overdueNanos := 2300000000 } : Iter).fire = true := by decide
+-- a run of one instance: fired, slow, two discarded shots, out of ammo
+example : runInstance Gen.InstLoop.iterBody
+    [{ gun := [⟨"a", 1, 200, 0⟩] }, { discardOverflow := true, overdueNanos := 2300000000, gun := [⟨"b", 2, 200, 0⟩] },
+     { discardOverflow := true, overdueNanos := 2300000001, gun := [⟨"c", 3, 200, 0⟩] }, { acqOk := false }, { gun := [⟨"never", 9, 0, 0⟩] }]
+    = [⟨"a", 1, 200, 0⟩, ⟨"discarded", 0, 0, 777⟩, ⟨"discarded", 0, 0, 777⟩] := by decide
+-- a pool run of two instances through the loop: ids 1 and 4 are fired, 2 is discarded, 3 gets no token
+example : runPoolLoop Gen.InstLoop.iterBody ⟨false, 2, true⟩ 0
+    [("i1", ⟨"a", "/x", .response 200 none, false, true⟩, ⟨true, true, true⟩), ("i2", ⟨"b", "/y", .response 200 none, false, true⟩, ⟨true, true, false⟩),
+     ("i2", ⟨"c", "/z", .response 200 none, false, true⟩, ⟨true, false, true⟩), ("i1", ⟨"d", "/w", .doErr .timeout, false, true⟩, ⟨true, true, true⟩)]
+    = [⟨"a", 1, 200, 0⟩, ⟨"discarded", 0, 0, 777⟩, ⟨"d", 4, 0, 110⟩] := by decide
+example : (0 : Nat) + [(), (), (), ()].length < idModulus := by decide
+example : judgeDiscards 4 1 2 = "fail:count:2 sample(s) say a shot was discarded (not sent) but only 1 of the 4 request(s) were not fired" := by decide
+example : judgeFiredOrNot false "t" (.received 200) [⟨"t", 3, 200, 0⟩] ≠ "ok" := by decide
 
 end Pandora.Props.C10
